@@ -80,7 +80,9 @@ def run(tier):
     # one lambda holding several sibling lambdas, inside a chained step (spec/MCSiblings.tla)
     sib = common.run_tlc("MCSiblings", "MCSiblings.cfg").tagged("CASE")
     sib.sort(key=lambda b: json.dumps(b["q"], sort_keys=True))
-    bases = bases + (rnd.sample(sib, 80) if tier == "quick" else sib)
+    nest3 = [b for b in sib if b.get("fam") == "nest3"]
+    sib = [b for b in sib if b.get("fam") != "nest3"]
+    bases = bases + (rnd.sample(sib, 80) + nest3 if tier == "quick" else sib + nest3)
     events, er = pipeline.generate_events(6)
     backends = ("atlas", "cms_aod", "cms_miniaod")
     jobs = []
